@@ -2,6 +2,7 @@ package main
 
 import (
 	"bytes"
+	"errors"
 	"fmt"
 	"io"
 	"runtime/debug"
@@ -38,6 +39,12 @@ type step struct {
 	SetMax  int             `json:"set_max,omitempty"` // > 0: SetMaxWorkFactor(SetMax) before the call
 	NewID   bool            `json:"new_id,omitempty"`  // before the call, continue with another identity object (same passphrase, current maximum)
 	Meter   bool            `json:"meter"`
+	// ID selects the identity object the step acts on. Object 0 exists from the
+	// start (job.Pass, job.Max); any other object is created, at the library's
+	// default maximum, by the first step that names it (passphrase Pass, or
+	// job.Pass). An empty Route makes the step configuration only.
+	ID   int    `json:"id,omitempty"`
+	Pass string `json:"pass,omitempty"`
 }
 
 // outcome is what the code under test did with a job.
@@ -49,11 +56,19 @@ type outcome struct {
 	Err      string `json:"err,omitempty"`
 	Delta    uint64 `json:"delta"` // growth of TotalAlloc across the call (Meter only)
 	Panic    string `json:"panic,omitempty"`
+	// Soft: the error is of the "not for this identity" class
+	// (ErrIncorrectIdentity / NoIdentityMatchError), not a hard refusal.
+	Soft bool `json:"soft,omitempty"`
 
 	Sub []outcome `json:"sub,omitempty"` // per step, for a history
 }
 
 var sink []byte
+
+func softError(err error) bool {
+	var nm *age.NoIdentityMatchError
+	return errors.Is(err, age.ErrIncorrectIdentity) || errors.As(err, &nm)
+}
 
 func toAge(st []refage.Stanza) []*age.Stanza {
 	out := make([]*age.Stanza, len(st))
@@ -67,8 +82,8 @@ func toAge(st []refage.Stanza) []*age.Stanza {
 // identity's decision (Unwrap, or Decrypt up to the returned reader) is inside
 // the metered region; reading the payload happens afterwards.
 func execute(j *job) (o outcome) {
-	newID := func(max int) (*age.ScryptIdentity, error) {
-		id, err := age.NewScryptIdentity(j.Pass)
+	newID := func(pass string, max int) (*age.ScryptIdentity, error) {
+		id, err := age.NewScryptIdentity(pass)
 		if err != nil {
 			return nil, err
 		}
@@ -77,7 +92,7 @@ func execute(j *job) (o outcome) {
 		}
 		return id, nil
 	}
-	id, err := newID(j.Max)
+	id, err := newID(j.Pass, j.Max)
 	if err != nil {
 		o.Err = "harness: " + err.Error()
 		return o
@@ -85,20 +100,43 @@ func execute(j *job) (o outcome) {
 	if len(j.Steps) == 0 {
 		return runCall(id, j.Route, j.Stanzas, j.File, j.Meter)
 	}
-	cur := j.Max
+	type obj struct {
+		id   *age.ScryptIdentity
+		pass string
+		cur  int // configured maximum, 0 = never configured
+	}
+	objs := map[int]*obj{0: {id, j.Pass, j.Max}}
 	for _, st := range j.Steps {
+		ob := objs[st.ID]
+		if ob == nil {
+			pass := st.Pass
+			if pass == "" {
+				pass = j.Pass
+			}
+			nid, err := newID(pass, 0)
+			if err != nil {
+				o.Err = "harness: " + err.Error()
+				return o
+			}
+			ob = &obj{nid, pass, 0}
+			objs[st.ID] = ob
+		}
 		if st.SetMax > 0 {
-			cur = st.SetMax
+			ob.cur = st.SetMax
 		}
 		if st.NewID {
-			if id, err = newID(cur); err != nil {
+			if ob.id, err = newID(ob.pass, ob.cur); err != nil {
 				o.Err = "harness: " + err.Error()
 				return o
 			}
 		} else if st.SetMax > 0 {
-			id.SetMaxWorkFactor(st.SetMax)
+			ob.id.SetMaxWorkFactor(st.SetMax)
 		}
-		o.Sub = append(o.Sub, runCall(id, st.Route, st.Stanzas, st.File, st.Meter))
+		if st.Route == "" {
+			o.Sub = append(o.Sub, outcome{})
+			continue
+		}
+		o.Sub = append(o.Sub, runCall(ob.id, st.Route, st.Stanzas, st.File, st.Meter))
 	}
 	return o
 }
@@ -113,7 +151,7 @@ func runCall(id *age.ScryptIdentity, route string, stanzas []refage.Stanza, file
 		call = func() {
 			fk, err := id.Unwrap(st)
 			if err != nil {
-				o.Err = err.Error()
+				o.Err, o.Soft = err.Error(), softError(err)
 				return
 			}
 			o.Accepted, o.Key = true, fk
@@ -123,7 +161,7 @@ func runCall(id *age.ScryptIdentity, route string, stanzas []refage.Stanza, file
 		call = func() {
 			r, err := age.Decrypt(src, id)
 			if err != nil {
-				o.Err = err.Error()
+				o.Err, o.Soft = err.Error(), softError(err)
 				return
 			}
 			o.Accepted, rd = true, r
